@@ -265,6 +265,26 @@ def renderings(d):
         if n == 'META-INF/manifest.xml' or n.rsplit('/', 1)[-1] in ('content.xml', 'styles.xml', 'meta.xml', 'settings.xml') \
                 and (n.count('/') == 0 or n.startswith('Object ')):
             out['zip:' + n] = z.read(n)
+    # the other two ways to produce a package: write() to a file object, save() to a file NAME with the suffix added
+    import tempfile, shutil, glob as _glob
+    b2 = io.BytesIO(); d.write(b2)
+    z2 = zipfile.ZipFile(io.BytesIO(b2.getvalue()))
+    for n in z2.namelist():
+        if n in ('content.xml', 'styles.xml', 'meta.xml', 'settings.xml', 'META-INF/manifest.xml'):
+            out['write:' + n] = z2.read(n)
+    tmp = tempfile.mkdtemp(prefix='odfverif-')
+    try:
+        d.save(os.path.join(tmp, 'doc'), True)
+        files = _glob.glob(os.path.join(tmp, 'doc*'))
+        if len(files) == 1:
+            z3 = zipfile.ZipFile(files[0])
+            for n in z3.namelist():
+                if n in ('content.xml', 'styles.xml', 'meta.xml', 'settings.xml', 'META-INF/manifest.xml'):
+                    out['savefile:' + n] = z3.read(n)
+        else:
+            out['savefile:content.xml'] = b''          # no file or several: reported as not well-formed
+    finally:
+        shutil.rmtree(tmp, ignore_errors=True)
     return out
 
 
@@ -606,3 +626,47 @@ def fresh_process_documents_check(chk):
             if not ok:
                 chk.fail('not-wellformed-in-fresh-process', {'document': rec, 'rendering': name}, '%s: %s' % (t, text[:300]))
                 break
+
+
+def extreme_trees_check(chk, drv, want_identity):
+    """size and shape extremes that are still legal: nesting depth in the hundreds (the writer is recursive), thousands of
+    siblings, strings of > 64 KiB as text / CDATA / attribute value, hundreds of attributes.  Writer vs model byte for byte,
+    expat oracle, identity of the parsed tree (C02)."""
+    T = u'urn:oasis:names:tc:opendocument:xmlns:text:1.0'; F = u'urn:example:foreign'
+    def chain(depth, leaf):
+        t = leaf
+        for i in range(depth):
+            t = ('E', T if i % 3 else F, u'span', [(F, u'custom', u'd%d' % i)] if i % 50 == 0 else [], [('T', u'<') , t, ('T', u'&')] if i % 97 == 0 else [t])
+        return t
+    big = (u'ab<&>"\'\t\n\r]]>\u00e9\U0001F600 ' * 6000)      # ~ 100 000 characters
+    trees = [
+        ('deep-150', chain(150, ('T', u'x'))),
+        ('deep-400', chain(400, ('C', u']]>'))),
+        ('wide-5000', ('E', T, u'p', [], [('E', T, u'span', [], [('T', u'%d' % i)]) if i % 2 else ('T', u'<%d>' % i) for i in range(5000)])),
+        ('long-text', ('E', T, u'p', [], [('T', big)])),
+        ('long-cdata', ('E', T, u'p', [], [('C', big)])),
+        ('long-attr', ('E', T, u'p', [(F, u'custom', big)], [])),
+        ('many-attrs', ('E', T, u'p', [(F, u'a%d' % i, u'v"%d' % i) for i in range(300)], [])),
+        ('empty-strings', ('E', T, u'p', [(F, u'custom', u'')], [('T', u''), ('C', u''), ('E', F, u'foo', [], [('T', u'')])])),
+    ]
+    lines = []; metas = []
+    for name, tr in trees:
+        e = X.build(tr)
+        w = X.walk(e)
+        real = X.to_xml(e)
+        tbl = X.ns_table()
+        lines.append('render ' + X.wire_table(tbl) + ' ' + X.wire_tree(w))
+        metas.append((name, w, real))
+    ans = drv.batch(lines)
+    for (name, w, real), a_render in zip(metas, ans):
+        doc = PROLOGUE + real
+        chk.corr(); chk.case(('extreme', name)); chk.count('extreme_trees')
+        if a_render != 'ok ' + enc_str(doc):
+            m = dec_str(a_render[3:]) if a_render.startswith('ok ') else a_render
+            k = next((i for i in range(min(len(m), len(doc))) if m[i] != doc[i]), min(len(m), len(doc)))
+            chk.corr_diff({'extreme': name}, doc[max(0, k - 40):k + 80], m[max(0, k - 40):k + 80], 'Element.toXml(0) vs printNode (rawRoot tbl t), first difference at %d' % k)
+        ok, res = wellformed(doc)
+        if not ok:
+            chk.fail('not-wellformed:extreme-tree', {'extreme': name}, '%s' % res); continue
+        if want_identity and X.sort_attrs(res) != X.canon(w):
+            chk.fail('tree-changed:extreme', {'extreme': name}, str(X.first_diff(X.sort_attrs(res), X.canon(w)))[:300])
